@@ -307,7 +307,7 @@ def main():
     EXTRA = {"ServerConn": ["C01", "C04", "C07", "C08", "C15"], "TlsPump": ["C01", "C06", "C07", "C08", "C15", "C20"], "Tofu": ["C03", "C11", "C16"],
              "Chain": ["C04", "C05", "C10"], "Assembly": ["C05", "C09", "C10"], "Router": ["C01"], "ClientCli": ["C03", "C11", "C16", "C19"],
              "ClientConnTrace": ["C11", "C13"], "RedirectObs": ["C16"], "TitanLine": ["C08"], "TitanWire": ["C19"], "Upload": ["C14"],
-             "TofuStore": ["C12"], "Url": ["C08", "C19"], "Reload": [], "PollWatch": [], "CertCli": [], "ServeCli": [], "Listing": []}
+             "TofuStore": ["C12"], "Url": ["C08", "C19"], "Reload": [], "PollWatch": [], "CertCli": [], "ServeCli": [], "Listing": [], "LogPrivacy": []}
     for k, v in EXTRA.items():
         engines[k] = sorted(set(engines.get(k, [])) | set(v))
     m = {
@@ -326,7 +326,7 @@ def main():
         "checks": checks,
         "notes": "See DESIGN.md. fix: commits in /repo are listed in known_findings.json (fixed entries); findings recorded rather than repaired are "
                  "listed there under findings and printed as KNOWN-FINDING lines by the check that reproduces them (C19-limit-empty-path, "
-                 "C06-stdlib-shutdown-timeout, C07-late-bytes-large-response). Extension modules beyond the listed properties: ./check ext reload|assembly|certcli|titanwire|servecli|listing.",
+                 "C06-stdlib-shutdown-timeout, C07-late-bytes-large-response). Extension modules beyond the listed properties: ./check ext reload|assembly|certcli|titanwire|servecli|listing|logprivacy.",
         "not_applicable": na,
     }
     with open(os.path.join(HERE, "MANIFEST.json"), "w") as f:
